@@ -80,6 +80,17 @@ ROUND5 = {
  "C20": " Round 5: B.fold (antispam exceptions, records and source names with non-ASCII letters in every case spelling; all modes x case_insensitive x invert) and B.foldlen (letters whose lower-case form has another UTF-8 length; the cut-before-lower-casing defect of cfg/matchrule is a listed finding).",
 }
 
+ROUND5_TECH = {
+ "C07": "; histories over several process lives (leftover temp files of a killed save, load-then-save after a restart)",
+ "C11": "; deterministic turn scheduler interleaving overlapping uploads after aborted ones; regenerated large bodies",
+ "C14": "; chain monitor following each event along neighbouring actions whose earlier members mutate the fields later selectors read",
+ "C15": "; actions behind the joining action and non-string join fields",
+ "C16": "; many-rule lists with a rule-isolation replay",
+ "C17": "; multi-processor differential pass (outputs byte-identical to the single-processor pipeline)",
+ "C19": "; concurrent workers writing very large events through the real Batcher into the file output",
+ "C20": "; Unicode case-folding families with a diagnostic hypothesis model for the listed length-change defect",
+}
+
 PENDING_REASON = "check not built yet in this round (runtime-monitoring design in DESIGN.md §3); not claimed until its monitor exists and is silent on the unchanged tree"
 
 def hook_commits():
@@ -97,6 +108,7 @@ def main():
         if pid in CHECKS and os.path.isdir(os.path.join(ROOT, "harness", "cmd", pid.lower())):
             level, technique, text, note, ref = CHECKS[pid]
             text += ROUND5.get(pid, "")
+            technique += ROUND5_TECH.get(pid, "")
             checks.append({
                 "property_id": pid,
                 "quick_cmd": f"./run.sh {pid} quick",
